@@ -43,7 +43,10 @@
     type-check ORACLE (rustc itself, on the implementation's emitted files) -- the monitor of this
     property -- and the classes in which it fails on the unchanged tree are the listed known findings
     (F9, F10, F12, F13, F14, F17, F19).  The claim is therefore partial by construction: theorem names
-    say which clause they cover. *)
+    say which clause they cover.
+    REFUTED ON THE MODEL (RefutedWitnesses*.v), one accepted input per open finding, with the emitted item that rustc
+    rejects: F12a/F12b/F12c (enums), F13 (packed embeds an aligned struct), F14 (two fields named vftable), F24 (two
+    functions of one name), F10/F21 (no receiver, body mentions self), F19 (private slot read from another module). *)
 From Coq Require Import List NArith ZArith Bool String.
 From PyxisModel Require Import Base Grammar SemTypes Registry Sem SemLemmas RustLayout LayoutLemmas ScopeLemmas.
 Import ListNotations.
@@ -51,6 +54,8 @@ Import ListNotations.
 From PyxisModel Require EmitFnReaders EmitFnShape FilesWhole FilesRead EmitPaths PathsClosed PathsWhole.
 
 From PyxisModel Require DefaultClosed EmitDefault EmitDefaultExamples EmitMarkers.
+
+From PyxisModel Require RefutedInputs RefutedWitnessesOrder RefutedWitnessesEmit RefutedWitnessesFn.
 
 Theorem C13_paths_resolve_partial : forall R scope, reg_has R ["u8"%string] = true -> forall t t',
   resolve_gtype R scope t = Some t' -> Forall (fun p => reg_has R p = true) (stype_paths t').
@@ -406,3 +411,188 @@ Theorem C13_copy_refuted :
       EmitReaders.struct_derives = Some ["Clone"%string].
 Proof. exact EmitDefaultExamples.C13_copy_refuted. Qed.
 Print Assumptions C13_copy_refuted.
+
+Theorem C13_enum_without_variants_refuted_F12a :
+  exists (st0 st : sstate) (files : RefutedInputs.files_t),
+      RefutedInputs.built [] 4 RefutedInputs.f12a_mods st0 st files /\
+      RefutedInputs.side_ok st0 = true /\
+      option_map ed_fields (RefutedInputs.enumdef_at st ["a"%string; "E"%string]) = Some [] /\
+      RefutedInputs.size_at st ["a"%string; "E"%string] = Some 1%N /\
+      RefutedInputs.thenr (RefutedInputs.enum_of files "a.rs" "E") EmitReaders.enum_repr =
+      Some [Sexp.Atom "u8"] /\
+      RefutedInputs.thenr (RefutedInputs.enum_of files "a.rs" "E") EmitReaders.enum_variants_of =
+      Some [].
+Proof. exact RefutedWitnessesEmit.C08_C13_enum_without_variants_refuted_F12a. Qed.
+Print Assumptions C13_enum_without_variants_refuted_F12a.
+
+Theorem C13_enum_struct_base_refuted_F12b :
+  exists (st0 st : sstate) (files : RefutedInputs.files_t),
+      RefutedInputs.built [] 4 RefutedInputs.f12b_mods st0 st files /\
+      RefutedInputs.side_ok st0 = true /\
+      option_map ed_type (RefutedInputs.enumdef_at st ["a"%string; "E"%string]) =
+      Some (TRaw ["a"%string; "S"%string]) /\
+      RefutedInputs.typedef_at st ["a"%string; "S"%string] <> None /\
+      option_map it_cat (reg_get (st_reg st) ["a"%string; "S"%string]) = Some Defined /\
+      RefutedInputs.thenr (RefutedInputs.enum_of files "a.rs" "E") EmitReaders.enum_repr =
+      Some
+        (Emit.tks
+           ["crate"%string; ":"%string; ":"%string; "a"%string; ":"%string; ":"%string; "S"%string]) /\
+      option_map EmitPaths.type_paths
+        (RefutedInputs.thenr (RefutedInputs.enum_of files "a.rs" "E") EmitReaders.enum_repr) =
+      Some [["a"%string; "S"%string]] /\
+      option_map FilesRead.file_decls (RefutedInputs.file_named files "a.rs") =
+      Some [("enum"%string, "E"%string); ("struct"%string, "S"%string)].
+Proof. exact RefutedWitnessesEmit.C08_C13_enum_struct_base_refuted_F12b. Qed.
+Print Assumptions C13_enum_struct_base_refuted_F12b.
+
+Theorem C13_enum_duplicate_discriminant_refuted_F12c :
+  exists (st0 st : sstate) (files : RefutedInputs.files_t) (vs : list EmitReaders.evariant),
+      RefutedInputs.built [] 4 RefutedInputs.f12c_mods st0 st files /\
+      RefutedInputs.side_ok st0 = true /\
+      option_map ed_fields (RefutedInputs.enumdef_at st ["a"%string; "E"%string]) =
+      Some [("A"%string, 1%Z); ("B"%string, 1%Z)] /\
+      RefutedInputs.thenr (RefutedInputs.enum_of files "a.rs" "E") EmitReaders.enum_variants_of =
+      Some vs /\
+      map (fun v : EmitReaders.evariant => (EmitReaders.evr_name v, EmitReaders.evr_disc v)) vs =
+      [("A"%string, 1%Z); ("B"%string, 1%Z)] /\ ~ NoDup (map EmitReaders.evr_disc vs).
+Proof. exact RefutedWitnessesEmit.C08_C13_enum_duplicate_discriminant_refuted_F12c. Qed.
+Print Assumptions C13_enum_duplicate_discriminant_refuted_F12c.
+
+Theorem C13_packed_embeds_aligned_refuted_F13 :
+  exists (st0 st : sstate) (files : RefutedInputs.files_t),
+      RefutedInputs.built [] 4 RefutedInputs.f13_mods st0 st files /\
+      RefutedInputs.side_ok st0 = true /\
+      (RefutedInputs.size_at st ["a"%string; "P"%string],
+       RefutedInputs.align_at st ["a"%string; "P"%string],
+       RefutedInputs.align_at st ["a"%string; "I"%string]) = (Some 5%N, Some 1%N, Some 4%N) /\
+      RefutedInputs.thenr (RefutedInputs.struct_of files "a.rs" "P") EmitReaders.struct_repr =
+      Some EmitReaders.ReprPacked /\
+      option_map
+        (map
+           (fun ef : EmitReaders.efield =>
+            (EmitReaders.ef_name ef, EmitPaths.type_paths (EmitReaders.ef_ty ef))))
+        (RefutedInputs.thenr (RefutedInputs.struct_of files "a.rs" "P") EmitReaders.struct_fields) =
+      Some [("x"%string, [["u8"%string]]); ("i"%string, [["a"%string; "I"%string]])] /\
+      RefutedInputs.thenr (RefutedInputs.struct_of files "a.rs" "I") EmitReaders.struct_repr =
+      Some (EmitReaders.ReprAlign 4).
+Proof. exact RefutedWitnessesEmit.C13_packed_embeds_aligned_refuted_F13. Qed.
+Print Assumptions C13_packed_embeds_aligned_refuted_F13.
+
+Theorem C13_two_fields_named_vftable_refuted_F14 :
+  exists
+      (st0 st : sstate) (files : RefutedInputs.files_t) (fs : list (vis * string * list Sexp.sexp)),
+      RefutedInputs.built [] 4 RefutedInputs.f14_mods st0 st files /\
+      RefutedInputs.side_ok st0 = true /\
+      option_map (map (fun r : region => (r_name r, r_type r)))
+        (RefutedInputs.regions_at st ["a"%string; "D"%string]) =
+      Some
+        [(Some "vftable"%string, TConstPtr (TRaw ["a"%string; "DVftable"%string]));
+         (Some "vftable"%string, TRaw ["u32"%string])] /\
+      option_map
+        (map
+           (fun ef : EmitReaders.efield =>
+            (EmitReaders.ef_vis ef, EmitReaders.ef_name ef, EmitReaders.ef_ty ef)))
+        (RefutedInputs.thenr (RefutedInputs.struct_of files "a.rs" "D") EmitReaders.struct_fields) =
+      Some fs /\
+      map (fun x : vis * string * list Sexp.sexp => snd (fst x)) fs =
+      ["vftable"%string; "vftable"%string] /\
+      ~ NoDup (map (fun x : vis * string * list Sexp.sexp => snd (fst x)) fs).
+Proof. exact RefutedWitnessesEmit.C13_two_fields_named_vftable_refuted_F14. Qed.
+Print Assumptions C13_two_fields_named_vftable_refuted_F14.
+
+Theorem C13_inherited_rename_collides_refuted_F24 :
+  exists
+      (st0 st : sstate) (files : RefutedInputs.files_t) (fns : list
+                                                                 (option string * option vis *
+                                                                  option (list EmitFnReaders.eparam) *
+                                                                  option EmitFnReaders.ebody *
+                                                                  option bool)),
+      RefutedInputs.built [] 4 RefutedInputs.f24_mods st0 st files /\
+      RefutedInputs.side_ok st0 = true /\
+      option_map (fun td : type_def => map (fun f : sfunction => (sf_name f, sf_body f)) (td_assoc td))
+        (RefutedInputs.typedef_at st ["a"%string; "D"%string]) =
+      Some
+        [("f"%string, BField "x" "f"); ("b_f"%string, BField "x" "b_f"); ("b_f"%string, BField "b" "f")] /\
+      option_map (map RefutedWitnessesFn.fn_view) (RefutedInputs.impl_fns files "a.rs" "D") = Some fns /\
+      map
+        (fun
+           v : option string * option vis * option (list EmitFnReaders.eparam) *
+               option EmitFnReaders.ebody * option bool => (fst (fst (fst (fst v))), snd (fst v))) fns =
+      [(Some "f"%string, Some (EmitFnReaders.EBField "x" "f" []));
+       (Some "b_f"%string, Some (EmitFnReaders.EBField "x" "b_f" []));
+       (Some "b_f"%string, Some (EmitFnReaders.EBField "b" "f" []))] /\
+      ~
+      NoDup
+        (map
+           (fun
+              v : option string * option vis * option (list EmitFnReaders.eparam) *
+                  option EmitFnReaders.ebody * option bool => fst (fst (fst (fst v)))) fns).
+Proof. exact RefutedWitnessesFn.C07_C13_inherited_rename_collides_refuted_F24. Qed.
+Print Assumptions C13_inherited_rename_collides_refuted_F24.
+
+Theorem C13_receiverless_forward_refuted_F10 :
+  exists
+      (st0 st : sstate) (files : RefutedInputs.files_t) (f : Sexp.sexp) (params : 
+                                                                         list EmitFnReaders.eparam) 
+    (body : list Sexp.sexp),
+      RefutedInputs.built [] 4 RefutedInputs.f10_mods st0 st files /\
+      RefutedInputs.side_ok st0 = true /\
+      RefutedInputs.impl_fns files "a.rs" "D" = Some [f] /\
+      EmitFnReaders.fn_name f = Some "create"%string /\
+      EmitFnReaders.fn_params f = Some params /\
+      EmitFnReaders.fn_body f = Some body /\
+      RefutedInputs.has_receiver params = false /\
+      EmitFnReaders.fn_wrapper_body f =
+      Some (EmitFnReaders.EBField "b" "create" [EmitFnReaders.CAName "x"]) /\
+      In (Sexp.Atom "self") body /\ RefutedInputs.tokens_mention "self" body = true.
+Proof. exact RefutedWitnessesFn.C07_C13_receiverless_forward_refuted_F10. Qed.
+Print Assumptions C13_receiverless_forward_refuted_F10.
+
+Theorem C13_receiverless_virtual_refuted_F21 :
+  exists
+      (st0 st : sstate) (files : RefutedInputs.files_t) (acc f : Sexp.sexp) 
+    (params : list EmitFnReaders.eparam) (body : list Sexp.sexp),
+      RefutedInputs.built [] 4 RefutedInputs.f21_mods st0 st files /\
+      RefutedInputs.side_ok st0 = true /\
+      RefutedInputs.impl_fns files "a.rs" "T" = Some [acc; f] /\
+      EmitFnReaders.fn_name f = Some "f"%string /\
+      EmitFnReaders.fn_params f = Some params /\
+      EmitFnReaders.fn_body f = Some body /\
+      RefutedInputs.has_receiver params = false /\
+      EmitFnReaders.fn_wrapper_body f = Some (EmitFnReaders.EBVftable "f" [EmitFnReaders.CAName "a"]) /\
+      RefutedInputs.tokens_mention "self" body = true.
+Proof. exact RefutedWitnessesFn.C13_receiverless_virtual_refuted_F21. Qed.
+Print Assumptions C13_receiverless_virtual_refuted_F21.
+
+Theorem C13_private_slot_read_across_modules_refuted_F19 :
+  exists (st0 st : sstate) (files : RefutedInputs.files_t),
+      RefutedInputs.built [] 4 RefutedInputs.f19_mods st0 st files /\
+      RefutedInputs.side_ok st0 = true /\
+      map fst files = ["m/base.rs"%string; "m/derived.rs"%string] /\
+      option_map FilesRead.file_decls (RefutedInputs.file_named files "m/derived.rs") =
+      Some [("struct"%string, "Derived"%string)] /\
+      option_map (map RefutedWitnessesFn.fn_view)
+        (RefutedInputs.impl_fns files "m/derived.rs" "Derived") =
+      Some
+        [(Some "vftable"%string, Some Public, Some [EmitFnReaders.EPSelf], None, Some true);
+         (Some "hidden"%string, Some Private, Some [EmitFnReaders.EPSelf],
+          Some (EmitFnReaders.EBVftable "hidden" [EmitFnReaders.CASelfConst]), 
+          Some true);
+         (Some "shown"%string, Some Public, Some [EmitFnReaders.EPSelf],
+          Some (EmitFnReaders.EBVftable "shown" [EmitFnReaders.CASelfConst]), 
+          Some true)] /\
+      option_map
+        (map
+           (fun f : Sexp.sexp =>
+            (EmitFnReaders.fn_name f, option_map EmitPaths.type_paths (EmitFnReaders.fn_ret f))))
+        (RefutedInputs.impl_fns files "m/derived.rs" "Derived") =
+      Some
+        [(Some "vftable"%string, Some [["m"%string; "base"%string; "BaseVftable"%string]]);
+         (Some "hidden"%string, Some []); (Some "shown"%string, Some [])] /\
+      RefutedInputs.thenr (RefutedInputs.struct_of files "m/base.rs" "BaseVftable")
+        EmitReaders.struct_vis = Some Public /\
+      option_map (map (fun ef : EmitReaders.efield => (EmitReaders.ef_vis ef, EmitReaders.ef_name ef)))
+        (RefutedInputs.thenr (RefutedInputs.struct_of files "m/base.rs" "BaseVftable")
+           EmitReaders.struct_fields) = Some [(Private, "hidden"%string); (Public, "shown"%string)].
+Proof. exact RefutedWitnessesFn.C13_private_slot_read_across_modules_refuted_F19. Qed.
+Print Assumptions C13_private_slot_read_across_modules_refuted_F19.
